@@ -81,3 +81,109 @@ def time_lemma_obligations():
 
 
 S.LEMMAS["time"] = time_lemma_obligations
+
+
+def codec_lemma_obligations():
+    """C05: dec(enc(p)) == p, assembled from the encoder's and the decoder's CONTRACTS only (not their bodies).
+
+    The encoder's postcondition gives the row; the decoder's precondition is discharged for it (with the
+    ghost split point = number of tags); the decoder's postcondition gives the decoded point as folds over
+    the row; two inductions over the folds bring them back to the original dicts."""
+    from . import codec_model as M
+    from .codec_c import layout, enumerates, wf_row, _des, _ser, tag_pair, field_pair
+    from .codec_model import (CP, Row, LStr, TagsC, FieldsC, OStr, ONum, tagfold, fieldfold, enc_tv, dec_tv, enc_fv, dec_fv, tag_key, field_key,
+                              num_eq, representable, stored_point, NONE_S, deq)
+
+    ss = z3.StringSort()
+    p = fresh(CP, "lem_p", _cf())
+    q = fresh(CP, "lem_q", _cf())  # the decoded point
+    compact = z3.Bool("lem_compact")
+    row = z3.Const("lem_row", sort_of(Row))
+    tk, fk = z3.Const("lem_tk", sort_of(LStr)), z3.Const("lem_fk", sort_of(LStr))
+    tpos, fpos = z3.Function("lem_tpos", ss, z3.IntSort()), z3.Function("lem_fpos", ss, z3.IntSort())
+    nt, nf = l_len(tk), l_len(fk)
+    tags, fields = p.t["_tags"].t, p.t["_fields"].t
+    m = p.t["_measurement"].t
+
+    class Cx:  # what the contract clauses look at
+        pass
+
+    enc = Cx()
+    enc.self, enc.compact_key_prefixes, enc.result = p, Val(TBool, compact), Val(Row, row)
+    enc.wit = {"tk": lambda: tk, "fk": lambda: fk, "tpos": tpos, "fpos": fpos}
+    dcx = Cx()
+    dcx.row, dcx._ghost_nt, dcx.self, dcx.result = Val(Row, row), Val(TInt, nt), q, q
+
+    base = list(S.GLOBAL_AXIOMS) + S.THEORIES["codec_text"] + S.THEORIES["codec_folds"]
+    base += [f for v in (p, q) for f in wf(v)] + [l_len(row) >= 0, nt >= 0, nf >= 0]
+    base += [f for _, f in stored_point(p)]
+    enc_post = [f for _, f in _ser.ensures(enc)]
+    hyp = base + enc_post
+    cells = S.THEORIES["codec_cells"]
+    meta = {"strings": True}
+    obs = []
+    # 1. the decoder's precondition holds for the encoder's output
+    j0 = z3.Int("lem_j0")
+    # instances of the encoder's (quantified) postcondition at the pair that cell j0 belongs to
+    inst = [z3.Implies(z3.And(0 <= (j0 - 2) / 2, (j0 - 2) / 2 < nt), tag_pair(row, p, compact, tk, (j0 - 2) / 2)),
+            z3.Implies(z3.And(0 <= (j0 - 2 - 2 * nt) / 2, (j0 - 2 - 2 * nt) / 2 < nf), field_pair(row, p, compact, tk, fk, (j0 - 2 - 2 * nt) / 2))]
+    for label, f in wf_row(row, nt, j0=j0):
+        obs.append(Obligation("lemma:codec/decoder_accepts_encoder_output[%s]" % label, hyp + inst + cells, f, kind="lemma", meta=meta))
+    dec_post = [f for _, f in _des.decoded(dcx, q)]
+    k = z3.Const("lem_k", ss)
+    n = z3.Int("lem_n")
+    # 2. inductions: what the folds hold after n pairs
+    tf = lambda n_: tagfold(row, n_)
+    T = lambda n_: forall([k], z3.And(
+        z3.Select(d_dom(tf(n_)), k) == z3.And(z3.Select(d_dom(tags), k), tpos(k) < n_),
+        z3.Implies(z3.Select(d_dom(tf(n_)), k), z3.Select(d_val(tf(n_)), k) == dec_tv(enc_tv(z3.Select(d_val(tags), k))))),
+        patterns=[z3.Select(d_dom(tf(n_)), k), z3.Select(d_dom(tags), k)])
+    unfold_t = lambda n_: tf(n_) == M.d_store(TagsC, tf(n_ - 1), tag_key(l_at(row, 2 * n_)), dec_tv(l_at(row, 2 * n_ + 1)))
+    obs.append(Obligation("lemma:codec/tags_fold/base", hyp, T(z3.IntVal(0)), kind="lemma", meta=meta))
+    obs.append(Obligation("lemma:codec/tags_fold/step", hyp + [0 <= n, n < nt, T(n), unfold_t(n + 1), tag_pair(row, p, compact, tk, n)], T(n + 1), kind="lemma", meta=meta))
+    ff = lambda n_: fieldfold(row, nt, n_)
+    F = lambda n_: forall([k], z3.And(
+        z3.Select(d_dom(ff(n_)), k) == z3.And(z3.Select(d_dom(fields), k), fpos(k) < n_),
+        z3.Implies(z3.Select(d_dom(ff(n_)), k), z3.Select(d_val(ff(n_)), k) == dec_fv(enc_fv(z3.Select(d_val(fields), k))))),
+        patterns=[z3.Select(d_dom(ff(n_)), k), z3.Select(d_dom(fields), k)])
+    unfold_f = lambda n_: ff(n_) == M.d_store(FieldsC, ff(n_ - 1), field_key(l_at(row, 2 * (nt + n_))), dec_fv(l_at(row, 2 * (nt + n_) + 1)))
+    obs.append(Obligation("lemma:codec/fields_fold/base", hyp, F(z3.IntVal(0)), kind="lemma", meta=meta))
+    obs.append(Obligation("lemma:codec/fields_fold/step", hyp + [0 <= n, n < nf, F(n), unfold_f(n + 1), field_pair(row, p, compact, tk, fk, n)], F(n + 1), kind="lemma", meta=meta))
+    # 3. the round trip, from the decoder's postcondition and the two induction conclusions
+    concl = hyp + cells + dec_post + [T(nt), F(nf), (l_len(row) - 2 - 2 * nt) / 2 == nf]
+    qt, qf = q.t["_tags"].t, q.t["_fields"].t
+    tv, tv2 = z3.Select(d_val(tags), k), z3.Select(d_val(qt), k)
+    fv, fv2 = z3.Select(d_val(fields), k), z3.Select(d_val(qf), k)
+    feq = z3.Or(z3.And(o_is_none(fv), o_is_none(fv2)), z3.And(o_is_some(fv), o_is_some(fv2), num_eq(o_val(fv2), o_val(fv))))
+    none_text = z3.And(o_is_some(tv), o_val(tv) == NONE_S)
+    exact = z3.Or(o_is_none(fv), representable(o_val(fv)))
+    goals = [
+        ("time", q.t["_time"].t == p.t["_time"].t),
+        ("measurement", q.t["_measurement"].t == m),
+        ("tags_stay_tags_same_keys", d_dom(qt) == d_dom(tags)),
+        ("fields_stay_fields_same_keys", d_dom(qf) == d_dom(fields)),
+        ("tag_values", forall([k], z3.Implies(z3.And(z3.Select(d_dom(tags), k), z3.Not(none_text)), tv2 == tv))),
+        ("tag_value_with_text_none", forall([k], z3.Implies(z3.And(z3.Select(d_dom(tags), k), none_text), tv2 == tv))),  # KF-16: '_none' is read back as None
+        ("field_values_representable", forall([k], z3.Implies(z3.And(z3.Select(d_dom(fields), k), exact), feq))),
+        ("field_values_other_ints", forall([k], z3.Implies(z3.And(z3.Select(d_dom(fields), k), z3.Not(exact)), feq))),  # KF-16: ints float64 cannot hold
+    ]
+    for label, g in goals:
+        obs.append(Obligation("lemma:codec/round_trip[%s]" % label, concl, g, kind="lemma", meta=meta))
+    # 4. injectivity corollary: one row has one reading (the split point between tags and fields is determined by the row)
+    p2 = fresh(CP, "lem_p2", _cf())
+    tk2, fk2 = z3.Const("lem_tk2", sort_of(LStr)), z3.Const("lem_fk2", sort_of(LStr))
+    compact2 = z3.Bool("lem_compact2")
+    lay2 = [f for _, f in layout(row, p2, compact2, tk2, fk2)]
+    nt2, nf2 = l_len(tk2), l_len(fk2)
+    # instances at the first pair where the two readings would disagree: a tag cell of one reading against the first field cell of the other
+    inst2 = [z3.Implies(z3.And(0 <= nt2, nt2 < nt), tag_pair(row, p, compact, tk, nt2)), z3.Implies(0 < nf2, field_pair(row, p2, compact2, tk2, fk2, 0)),
+             z3.Implies(z3.And(0 <= nt, nt < nt2), tag_pair(row, p2, compact2, tk2, nt)), z3.Implies(0 < nf, field_pair(row, p, compact, tk, fk, 0))]
+    obs.append(Obligation("lemma:codec/same_row_same_split", base + enc_post + lay2 + inst2 + [nt2 >= 0, nf2 >= 0], nt2 == nt, kind="lemma", meta=meta))
+    return obs
+
+
+S.LEMMAS["codec"] = codec_lemma_obligations
+
+
+def _cf():
+    return {k: v["fields"] for k, v in S.CLASSES.items()}
